@@ -108,6 +108,7 @@ def full_run(tier, seed, log=print):
     if r.an.build_errors:
         raise P.Undecided("the generated file does not compile (construct outside the supported subset, or a contract "
                           "no longer matches the source):\n" + "\n".join(r.an.build_errors[:5]))
+    cascade_analysis(r, path, final_text)
     vr = r.res["out"].get("verification-results")
     if not vr:
         raise P.Undecided("verus produced no result: " + r.res["stderr_tail"][-1500:])
@@ -139,6 +140,47 @@ def full_run(tier, seed, log=print):
     r.call_sites = call_site_obligations(em, em.lines)
     r.wall = time.time() - t0
     return r
+
+def cascade_analysis(r, path, text):
+    """Mark failures that disappear when the failed panic sites are assumed not to panic (DESIGN 8)."""
+    r.cascades = []
+    panics = [f for f in r.an.failures if f["panic_site"] and f["kind"] == "pre" and f.get("site_span")]
+    fns = {f["fn"] for f in panics}
+    others = [f for f in r.an.failures if f["fn"] in fns and not f["panic_site"]]
+    if not panics or not others:
+        return
+    lines = text.split("\n")
+    edits = []
+    for f in panics:
+        sp = f["site_span"]
+        if sp["line_start"] != sp["line_end"]:
+            continue
+        ln = sp["line_start"] - 1
+        seg = lines[ln][sp["column_start"] - 1:sp["column_end"] - 1]
+        new = None
+        if seg.endswith(".unwrap()"):
+            new = seg[:-len(".unwrap()")] + ".assume_unwrap()"
+        elif ".expect(" in seg and seg.endswith(")"):
+            new = seg[:seg.rfind(".expect(")] + ".assume_unwrap()"
+        elif seg.startswith("assert!(") and seg.endswith(")"):
+            new = "assume_true(" + seg[len("assert!("):]
+        if new is not None:
+            edits.append((ln, sp["column_start"] - 1, sp["column_end"] - 1, new))
+    if not edits:
+        return
+    for ln, a, b, new in sorted(edits, key=lambda e: (e[0], -e[1])):
+        lines[ln] = lines[ln][:a] + new + lines[ln][b:]
+    wpath = os.path.join(P.BUILD, "bcenv_whatif.rs")
+    open(wpath, "w").write("\n".join(lines))
+    res2 = P.run_verus(wpath)
+    an2 = P.analyse(res2, r.em, wpath)
+    if an2.build_errors:
+        return
+    still = {(f["fn"], f["ob"], f["kind"], f["clause_line"]) for f in an2.failures}
+    for f in others:
+        if (f["fn"], f["ob"], f["kind"], f["clause_line"]) not in still:
+            f["cascade_of_panic"] = True
+            r.cascades.append(f["ob"] or ("%s@%s" % (f["kind"], f["fn"])))
 
 def match_known(f, prop, known):
     for k in known.get("findings", []):
@@ -173,7 +215,7 @@ def decide(prop, r, tier, seed, meta):
         fset = {f["key"] for f in em.functions if prop in f["tags"]}
         panic = []
     calls = [c for c in r.call_sites if prop in c["tags"]]
-    failures = [f for f in r.an.failures if prop in P.failure_tags(f)]
+    failures = [f for f in r.an.failures if prop in P.failure_tags(f) and not (f.get("cascade_of_panic") and prop != "C16")]
     undec = [u for u in r.an.undecided if u["fn"] is None or any(u["fn"] == f["key"] and prop in f["tags"] for f in em.functions)]
     known = load_known()
     new_fail, known_hit = [], []
@@ -263,6 +305,7 @@ def evidence(prop, r, tier, seed, meta, obs, panic, calls, new_fail, known_hit, 
                            "all_obligations": len(em.obs)},
             "extraction": {"rewrites": em.rewrites, "dropped": "doc comments, comments, #[cfg(feature)] attrs (default features), #[inline]/#[allow]/#[derive] attrs, visibility qualifiers normalised"},
             "annotations_not_placed": list(em.degraded),
+            "cascades_of_failed_panic_sites": list(getattr(r, "cascades", [])),
             "unmodelled_external_functions_treated_as_unconstrained": [d.split("]")[0].split("[")[-1] for d in r.havoc],
             "vacuity_probes": {"total": r.vac_total, "silent": r.vac_silent},
             "solver_ms": smt_total, "verus_wall_s": round(r.res["wall"], 2), "vacuity_wall_s": round(r.vac_wall, 2),
